@@ -38,6 +38,8 @@ func main() {
 	steps := flag.Int("steps", 2000000, "instruction budget per path")
 	list := flag.Bool("list", false, "list harnesses and exit")
 	full := flag.Bool("full-models", false, "evaluate all UF applications in counterexample models")
+	budget := flag.Int("budget-s", 0, "wall-clock budget per harness in seconds (0 = none)")
+	dpath := flag.String("path", "", "debug: run only this decision path (comma separated)")
 	flag.Parse()
 
 	overlay := map[string][]byte{}
@@ -54,7 +56,7 @@ func main() {
 	if err != nil {
 		fail(*out, err)
 	}
-	cfg := &sym.Config{MaxSteps: *steps, LoopBound: *loop, MaxDepth: 200, Bounds: map[string]int{}, Solvers: strings.Split(*solvers, ","), TimeoutMs: *timeout, FullModels: *full}
+	cfg := &sym.Config{MaxSteps: *steps, LoopBound: *loop, MaxDepth: 200, Bounds: map[string]int{}, Solvers: strings.Split(*solvers, ","), TimeoutMs: *timeout, FullModels: *full, BudgetS: *budget}
 	for _, kv := range strings.Split(*bounds, ",") {
 		if kv == "" {
 			continue
@@ -65,6 +67,15 @@ func main() {
 			fail(*out, err)
 		}
 		cfg.Bounds[p[0]] = v
+	}
+	if *dpath != "" {
+		cfg.Debug = true
+		cfg.Transcript = "/tmp/gosym-transcript.smt2"
+		cfg.DebugPath = []int{}
+		for _, v := range strings.Split(*dpath, ",") {
+			n, _ := strconv.Atoi(strings.TrimSpace(v))
+			cfg.DebugPath = append(cfg.DebugPath, n)
+		}
 	}
 	re := regexp.MustCompile("^VerifHarness_(" + *run + ")$")
 	o := &Output{Dir: *dir, Packages: strings.Split(*pkgs, ","), LoadS: prog.LoadS, Config: cfg}
